@@ -349,7 +349,7 @@ func sliceHighGuarded(ctx *core.Ctx, r *core.Report, fns []*ssa.Function) int {
 			if derivesFromLenOf(sl.High, sl.X, 0) {
 				guarded = true
 			}
-			r.Ob("slice-bound-guarded", fmt.Sprintf("%s/%s[:%s]", core.FnName(f), sl.X.Name(), sl.High.Name()), ctx.Pos(sl.Pos()), guarded,
+			r.Ob("slice-bound-guarded", fmt.Sprintf("%s/slice#%d", core.FnName(f), n), ctx.Pos(sl.Pos()), guarded,
 				"the upper bound of this slice expression is computed, and no dominating comparison tests that same value against the length (a guard on a related quantity — the nesting level, when the bound is twice the level — does not cover it): out of range for large inputs, e.g. pretty printing beyond 43 levels")
 		})
 	}
